@@ -44,6 +44,8 @@ enum Act {
     P(u64, usize),
     S(u64),
     C(u64),
+    /// sync phase of the session, its remote sending these operations
+    Y(u64, Vec<usize>),
 }
 
 struct Pool {
@@ -92,6 +94,9 @@ impl Pool {
 }
 
 struct SessRt {
+    own_events: tokio::sync::broadcast::Receiver<TopicLogSyncEvent<Ext>>,
+    live: bool,
+    synced: bool,
     fut: Option<Pin<Box<dyn Future<Output = Result<(), TopicLogSyncError>>>>>,
     to_node: mpsc::UnboundedSender<Result<Msg, String>>,
     from_node: mpsc::UnboundedReceiver<Msg>,
@@ -167,6 +172,7 @@ async fn run_flow(store: &SqliteStore, pool: &Pool, sess: &[SessSpec], acts: &[A
         let config = SessionConfig { topic: pool.topics[sp.topic], remote: pool.keys[i % pool.keys.len()].verifying_key(), live_mode: sp.live };
         let mut proto = mgr.session(sp.sid, &config).await;
         proto.buffer_capacity = sp.cap;
+        let own_events = proto.event_tx.subscribe();
         let (tx_out, rx_out) = mpsc::unbounded::<Msg>();
         let (tx_in, rx_in) = mpsc::unbounded::<Result<Msg, String>>();
         let fut: Pin<Box<dyn Future<Output = Result<(), TopicLogSyncError>>>> = Box::pin(async move {
@@ -174,55 +180,13 @@ async fn run_flow(store: &SqliteStore, pool: &Pool, sess: &[SessSpec], acts: &[A
             let mut stream = rx_in;
             proto.run(&mut sink, &mut stream).await
         });
-        rts.insert(sp.sid, SessRt { fut: Some(fut), to_node: tx_in, from_node: rx_out, sent: vec![], sync_msgs: vec![], result: None });
+        rts.insert(sp.sid, SessRt { own_events, live: sp.live, synced: false, fut: Some(fut), to_node: tx_in, from_node: rx_out, sent: vec![], sync_msgs: vec![], result: None });
     }
     let mut stream = match stream_opt.take() {
         Some(s) => s,
         None => mgr.subscribe(),
     };
-    // ---- trivially empty sync phase for every session ----
-    let mut live_started: BTreeSet<u64> = BTreeSet::new();
-    for sp in sess {
-        let s = rts.get_mut(&sp.sid).unwrap();
-        s.to_node.unbounded_send(Ok(TopicLogSyncMessage::Sync(LogSyncMessage::Have(BTreeMap::new())))).unwrap();
-        s.to_node.unbounded_send(Ok(TopicLogSyncMessage::Sync(LogSyncMessage::Done))).unwrap();
-    }
     let mut reports: Vec<(u64, usize)> = vec![];
-    let mut spins = 0;
-    loop {
-        for sp in sess {
-            poll_sess(rts.get_mut(&sp.sid).unwrap()).await;
-        }
-        for e in drain_events(&mut stream).await {
-            match e.event {
-                TopicLogSyncEvent::LiveModeStarted => {
-                    live_started.insert(e.session_id);
-                }
-                TopicLogSyncEvent::OperationReceived { .. } => anomalies.push("operation event during the empty sync phase".into()),
-                _ => {}
-            }
-        }
-        let ready = sess.iter().all(|sp| if sp.live { live_started.contains(&sp.sid) } else { rts[&sp.sid].result.is_some() });
-        if ready {
-            break;
-        }
-        spins += 1;
-        if spins > 20000 {
-            anomalies.push("sync phase did not complete".into());
-            break;
-        }
-        tokio::time::sleep(Duration::from_micros(100)).await;
-    }
-    for sp in sess {
-        let s = rts.get_mut(&sp.sid).unwrap();
-        collect_out(s, pool, &mut anomalies, sp.sid, false);
-        if s.sync_msgs != vec!["have".to_string(), "done".to_string()] {
-            anomalies.push(format!("session {} sync phase sent {:?}", sp.sid, s.sync_msgs));
-        }
-        if !s.sent.is_empty() {
-            anomalies.push("live message during sync phase".into());
-        }
-    }
     // ---- live phase: exactly the schedule of the request ----
     for a in acts {
         match a {
@@ -239,8 +203,59 @@ async fn run_flow(store: &SqliteStore, pool: &Pool, sess: &[SessSpec], acts: &[A
             }
             Act::S(sid) => {
                 let s = rts.get_mut(sid).unwrap();
+                if !s.synced {
+                    anomalies.push(format!("harness: S{sid} before Y{sid}"));
+                }
                 poll_sess(s).await;
                 collect_out(s, pool, &mut anomalies, *sid, true);
+            }
+            Act::Y(sid, ops) => {
+                // the remote's side of the sync phase: Have{}, [PreSync, Operation*], Done
+                let s = rts.get_mut(sid).unwrap();
+                s.synced = true;
+                let mut msgs = vec![LogSyncMessage::Have(BTreeMap::new())];
+                if !ops.is_empty() {
+                    let bytes: usize = ops.iter().map(|o| pool.ops[*o].header.to_bytes().len() + pool.ops[*o].body.as_ref().map(|b| b.to_bytes().len()).unwrap_or(0)).sum();
+                    msgs.push(LogSyncMessage::PreSync { total_operations: ops.len() as u32, total_bytes: bytes as u32 });
+                    for o in ops {
+                        let op = &pool.ops[*o];
+                        msgs.push(LogSyncMessage::Operation(op.header.to_bytes(), op.body.as_ref().map(|b| b.to_bytes())));
+                    }
+                }
+                msgs.push(LogSyncMessage::Done);
+                for m in msgs {
+                    let _ = s.to_node.unbounded_send(Ok(TopicLogSyncMessage::Sync(m)));
+                }
+                let mut spins = 0;
+                loop {
+                    poll_sess(s).await;
+                    let mut live_started = false;
+                    while let Ok(e) = s.own_events.try_recv() {
+                        if let TopicLogSyncEvent::LiveModeStarted = e {
+                            live_started = true;
+                        }
+                    }
+                    if (s.live && live_started) || s.result.is_some() {
+                        break;
+                    }
+                    spins += 1;
+                    if spins > 20000 {
+                        anomalies.push(format!("sync phase of session {sid} did not complete"));
+                        break;
+                    }
+                    tokio::time::sleep(Duration::from_micros(100)).await;
+                }
+                if s.live {
+                    // first live-mode poll: the live channel is emptied
+                    poll_sess(s).await;
+                }
+                collect_out(s, pool, &mut anomalies, *sid, false);
+                if s.sync_msgs != vec!["have".to_string(), "done".to_string()] {
+                    anomalies.push(format!("session {sid} sync phase sent {:?}", s.sync_msgs));
+                }
+                if !s.live && s.result.as_deref() != Some("ok") {
+                    anomalies.push(format!("session {sid} without live mode ended with {:?}", s.result));
+                }
             }
             Act::C(_) => {
                 for e in drain_events(&mut stream).await {
@@ -276,6 +291,13 @@ fn req_line(sess: &[SessSpec], acts: &[Act]) -> String {
             Act::P(s, o) => format!("P{s}:{o}"),
             Act::S(s) => format!("S{s}"),
             Act::C(s) => format!("C{s}"),
+            Act::Y(s, ops) => {
+                if ops.is_empty() {
+                    format!("Y{s}")
+                } else {
+                    format!("Y{s}:{}", ops.iter().map(|o| o.to_string()).collect::<Vec<_>>().join(","))
+                }
+            }
         })
         .collect();
     format!("{} ; {} ; {}", CONSUMER_CAP, s.join(" "), a.join(" ")).trim().to_string()
@@ -327,6 +349,14 @@ fn oracle(out: &mut Out, n: u64, req: &str, ans: &str, sess: &[SessSpec], acts: 
                     published_on_topic.entry(spec[s].topic).or_default().insert(*x);
                 }
             }
+            Act::Y(s, ops) => {
+                // sync-phase operations are received from the session's remote, live mode or not
+                for x in ops {
+                    distinct.insert(*x);
+                    r_in.entry(*s).or_default().insert(*x);
+                    topic_in.entry(spec[s].topic).or_default().insert(*x);
+                }
+            }
             _ => {}
         }
     }
@@ -342,7 +372,7 @@ fn oracle(out: &mut Out, n: u64, req: &str, ans: &str, sess: &[SessSpec], acts: 
                 // whatever the windows: an operation can only be offered to a session by a publish on it
                 // or by *another* session of the topic that got it from its remote
                 let published_here = p_in.get(&s.sid).unwrap_or(&empty).contains(x);
-                let from_others = sess.iter().any(|t| t.sid != s.sid && t.live && t.topic == s.topic && r_in.get(&t.sid).unwrap_or(&empty).contains(x));
+                let from_others = sess.iter().any(|t| t.sid != s.sid && t.topic == s.topic && r_in.get(&t.sid).unwrap_or(&empty).contains(x));
                 if !published_here && !from_others {
                     out.oracle_fail(n, "echo-sole-source", &format!("session {} sent operation {x} to its remote, the only peer it ever came from", s.sid), req, ans);
                 }
@@ -378,7 +408,7 @@ fn oracle(out: &mut Out, n: u64, req: &str, ans: &str, sess: &[SessSpec], acts: 
         }
     }
     // (d) forward to all others / report once — for quiesced flows whose windows cannot overflow
-    if quiesced && no_evict_c && sess.iter().all(|s| distinct.len() <= s.cap) {
+    if quiesced && no_evict_c && sess.iter().all(|s| distinct.len() <= s.cap && s.live) {
         for s in sess.iter().filter(|s| s.live) {
             let pubs = published_on_topic.get(&s.topic).unwrap_or(&empty);
             for x in topic_in.get(&s.topic).unwrap_or(&empty) {
@@ -416,6 +446,11 @@ fn emit(rt: &tokio::runtime::Runtime, store: &SqliteStore, pool: &Pool, out: &mu
         if let Act::R(s, x) = a {
             via.entry(*x).or_default().insert(*s);
         }
+        if let Act::Y(s, ops) = a {
+            for x in ops {
+                via.entry(*x).or_default().insert(*s);
+            }
+        }
     }
     let multi = via.values().any(|v| v.len() >= 2);
     let evicted = o.sent.values().any(|v| v.iter().collect::<BTreeSet<_>>().len() != v.len())
@@ -436,6 +471,7 @@ fn emit(rt: &tokio::runtime::Runtime, store: &SqliteStore, pool: &Pool, out: &mu
     out.count(if subscribe_first { "subscribe before sessions" } else { "subscribe after sessions" });
     out.count_n("live messages sent", o.sent.values().map(|v| v.len() as u64).sum());
     out.count_n("events reported", o.reports.len() as u64);
+    out.count_n("sync-phase operations", acts.iter().map(|a| if let Act::Y(_, o) = a { o.len() as u64 } else { 0 }).sum());
     out.count_n("remote inputs", acts.iter().filter(|a| matches!(a, Act::R(..))).count() as u64);
     out.count_n("publish inputs", acts.iter().filter(|a| matches!(a, Act::P(..))).count() as u64);
     oracle(out, n, &req, &ans, sess, acts, &o, quiesced);
@@ -460,13 +496,46 @@ fn gen_sessions(rng: &mut Rng, caps: &[usize]) -> Vec<SessSpec> {
 /// consumer draining that session's events; optionally a final quiescing round.
 fn gen_flow(rng: &mut Rng, sess: &[SessSpec], alphabet: usize, len: usize, quiesce: bool) -> Vec<Act> {
     let mut acts = vec![];
-    let sids: Vec<u64> = sess.iter().map(|s| s.sid).collect();
-    while acts.len() < len {
+    let all: Vec<u64> = sess.iter().map(|s| s.sid).collect();
+    // every session runs its sync phase (mostly empty, sometimes with a few operations) before
+    // anything is delivered to it; some sessions start late, while forwards/publishes queue up
+    let mut order = all.clone();
+    rng.shuffle(&mut order);
+    let mut late: Vec<u64> = vec![];
+    let mut sids: Vec<u64> = vec![];
+    let sync_ops = |rng: &mut Rng| -> Vec<usize> {
+        if rng.chance(2, 3) { vec![] } else { (0..rng.range(1, 3)).map(|_| rng.below(alphabet as u64) as usize).collect() }
+    };
+    for s in order {
+        if rng.chance(1, 5) && !sids.is_empty() {
+            late.push(s);
+        } else {
+            let ops = sync_ops(rng);
+            acts.push(Act::Y(s, ops));
+            acts.push(Act::C(s));
+            sids.push(s);
+        }
+    }
+    if sids.is_empty() {
+        let s = late.pop().unwrap();
+        acts.push(Act::Y(s, vec![]));
+        acts.push(Act::C(s));
+        sids.push(s);
+    }
+    while acts.len() < len || !late.is_empty() {
+        if !late.is_empty() && rng.chance(1, 3) {
+            let s = late.pop().unwrap();
+            let ops = sync_ops(rng);
+            acts.push(Act::Y(s, ops));
+            acts.push(Act::C(s));
+            sids.push(s);
+        }
         for _ in 0..rng.range(1, 4) {
             let sid = *rng.pick(&sids);
             let op = rng.below(alphabet as u64) as usize;
             if rng.chance(1, 6) {
-                acts.push(Act::P(sid, op));
+                // publishes may also go to sessions that have not started yet
+                acts.push(Act::P(*rng.pick(&all), op));
             } else {
                 acts.push(Act::R(sid, op));
                 // the same operation arriving through a second session right away
@@ -507,6 +576,12 @@ fn parse_req(req: &str) -> (Vec<SessSpec>, Vec<Act>) {
         .split_whitespace()
         .map(|t| {
             let (c, r) = t.split_at(1);
+            if c == "Y" {
+                let mut it = r.split(':');
+                let sid: u64 = it.next().unwrap().parse().unwrap();
+                let ops: Vec<usize> = it.next().map(|o| o.split(',').map(|x| x.parse().unwrap()).collect()).unwrap_or_default();
+                return Act::Y(sid, ops);
+            }
             let f: Vec<usize> = r.split(':').map(|x| x.parse().unwrap()).collect();
             match c {
                 "R" => Act::R(f[0] as u64, f[1]),
@@ -547,11 +622,24 @@ fn main() {
             SessSpec { sid: 1, topic: 0, live: true, cap: 1024 },
             SessSpec { sid: 2, topic: 1, live: true, cap: 1024 },
         ];
-        let a = vec![Act::R(0, 0), Act::S(0), Act::C(0), Act::S(1), Act::C(1), Act::S(2), Act::C(2), Act::R(1, 0), Act::R(0, 0), Act::S(1), Act::C(1), Act::S(0), Act::C(0), Act::P(2, 1), Act::S(2), Act::C(2), Act::S(0), Act::C(0), Act::S(1), Act::C(1)];
+        let a = vec![Act::Y(0, vec![]), Act::C(0), Act::Y(1, vec![]), Act::C(1), Act::Y(2, vec![]), Act::C(2), Act::R(0, 0), Act::S(0), Act::C(0), Act::S(1), Act::C(1), Act::S(2), Act::C(2), Act::R(1, 0), Act::R(0, 0), Act::S(1), Act::C(1), Act::S(0), Act::C(0), Act::P(2, 1), Act::S(2), Act::C(2), Act::S(0), Act::C(0), Act::S(1), Act::C(1)];
         emit(&rt, &store, &pool, &mut out, &s3, &a, true, true);
         emit(&rt, &store, &pool, &mut out, &s3, &a, false, true);
-        let a2 = vec![Act::R(0, 5), Act::R(1, 5), Act::S(0), Act::C(0), Act::S(1), Act::C(1), Act::S(0), Act::C(0)];
+        let a2 = vec![Act::Y(0, vec![]), Act::C(0), Act::Y(1, vec![]), Act::C(1), Act::Y(2, vec![]), Act::C(2), Act::R(0, 5), Act::R(1, 5), Act::S(0), Act::C(0), Act::S(1), Act::C(1), Act::S(0), Act::C(0)];
         emit(&rt, &store, &pool, &mut out, &s3, &a2, true, true);
+        // buffer handed over from the sync phase: operation 3 synced on session 0 is not sent on it later
+        let a3 = vec![Act::Y(0, vec![3, 4, 3]), Act::C(0), Act::Y(1, vec![]), Act::C(1), Act::Y(2, vec![]), Act::C(2), Act::R(1, 3), Act::R(1, 6), Act::S(1), Act::C(1), Act::S(0), Act::C(0), Act::S(1), Act::C(1)];
+        emit(&rt, &store, &pool, &mut out, &s3, &a3, true, true);
+        // a session without live mode next to a live one: its registration in the event stream
+        // goes away with the first forward; operations it syncs afterwards are not reported
+        let s2 = vec![
+            SessSpec { sid: 1, topic: 0, live: true, cap: 1024 },
+            SessSpec { sid: 2, topic: 0, live: false, cap: 1024 },
+        ];
+        let a4 = vec![Act::Y(1, vec![]), Act::C(1), Act::R(1, 0), Act::S(1), Act::C(1), Act::Y(2, vec![5]), Act::C(2), Act::S(1), Act::C(1)];
+        emit(&rt, &store, &pool, &mut out, &s2, &a4, true, false);
+        let a5 = vec![Act::Y(2, vec![5, 6]), Act::C(2), Act::Y(1, vec![6]), Act::C(1), Act::S(1), Act::C(1)];
+        emit(&rt, &store, &pool, &mut out, &s2, &a5, false, false);
     }
     // no window overflow possible: direct forward-all / once / no-echo oracles apply
     for i in 0..n_small {
@@ -576,7 +664,7 @@ fn main() {
             SessSpec { sid: 7, topic: 0, live: true, cap: 3 },
             SessSpec { sid: 9, topic: 0, live: true, cap: 2 },
         ];
-        let mut acts = vec![];
+        let mut acts = vec![Act::Y(7, vec![]), Act::C(7), Act::Y(9, vec![]), Act::C(9)];
         let total = 1024 + rng.range(1, 60) as usize;
         let mut k = 0;
         while k < total {
